@@ -201,6 +201,13 @@ func Execute(h *History) error {
 					args = append(args, "--timeout", "400ms")
 				}
 			}
+			// every fourth invocation is a dry run (--dry --verbose): which content WOULD run is read from the
+			// echoed command; approval, caching and exit status are those of a real run (the specification
+			// does not distinguish: the content is fetched, approved and used either way)
+			dry := (i+len(h.Steps)+len(s.Flags))%4 == 0
+			if dry {
+				args = append(args, "--dry", "--verbose")
+			}
 			ctx, cancel := context.WithTimeout(context.Background(), 30*time.Second)
 			cmd := exec.CommandContext(ctx, TaskBin, args...)
 			cmd.Dir = proj
@@ -228,6 +235,11 @@ func Execute(h *History) error {
 				s.Ran, _ = strconv.Atoi(ln)
 			}
 			traceLen = len(tb)
+			if dry {
+				if m := dryRe.FindStringSubmatch(out.String()); m != nil {
+					s.Ran, _ = strconv.Atoi(m[1])
+				}
+			}
 			s.Out = out.String()
 			if len(s.Out) > 240 {
 				s.Out = s.Out[:240]
@@ -236,6 +248,8 @@ func Execute(h *History) error {
 	}
 	return nil
 }
+
+var dryRe = regexp.MustCompile(`task: \[r:hello\] echo (\d+) >>`)
 
 var allFlags = []string{"yes", "download", "offline", "expiry", "insecure"}
 
